@@ -307,6 +307,16 @@ def encoderFit (mlArg : Option (Lbl α)) (classes : Option (ArrKind × List (Lbl
           | .error e => .error e
           | .ok _ => .ok ⟨sortDedup (y.flat.filter (notMissing ml)), ml, appendKind y.kind ml⟩
 
+/-- One `fit` call on an encoder *object* whose previous fitted state is `prev` (`none` = never fitted):
+returns the outcome of the call and the state afterwards.  `fit` assigns `_le`, `_dtype` and `classes_`
+anew from its arguments and reads nothing of the old state; a call that raises leaves the old state. -/
+def refit (prev : Option (Fitted α)) (mlArg : Option (Lbl α))
+    (classes : Option (ArrKind × List (Lbl α))) (y : Arr α) :
+    Except LErr (Fitted α) × Option (Fitted α) :=
+  match encoderFit mlArg classes y with
+  | .ok f => (.ok f, some f)
+  | .error e => (.error e, prev)
+
 /-- `ExtLabelEncoder.transform(y)` (flat, row-major). -/
 def encoderTransform (f : Fitted α) (y : Arr α) : Except LErr (List Int) :=
   if y.rows ≠ 0 && y.cols = some 0 then .error .shape        -- check_array: 0 feature(s)
